@@ -181,17 +181,34 @@ func TestVerifC02Sampled(t *testing.T) {
 		fixed = append(fixed, 6, 7, 8, 65536)
 	}
 	r.Bounds["L"] = lengths
-	r.Bounds["write_splits"] = "whole, 1+rest, rest+1, 2+rest, 3+rest, 4+rest, thirds, 0+L+0, 1-byte writes for L<=4096"
+	r.Bounds["write_splits"] = "whole, 1+rest, rest+1, 2+rest, 3+rest, 4+rest, thirds, 0+L+0, thirds with zero-length writes between them [a,0,a,0,0,rest], 1-byte writes for L<=4096"
+	if !thorough {
+		r.Bounds["quick_reduction_zero_length_writes"] = "the split with zero-length writes in between only with short reads {unlimited,1} underneath"
+	}
 	r.Bounds["short_read_patterns(cyclic, 0=unlimited)"] = shorts
 	r.Bounds["peek"] = "PeekBytes called before the first write (blocks) | once 3 bytes were written"
 	r.Bounds["read_after"] = "each write | last write"
 	r.Bounds["read_sizes"] = fmt.Sprintf("%v, L+1, remaining-1, remaining, remaining+1", fixed)
 	r.Bounds["readers"] = "Read (judged); io.Copy via the promoted io.WriterTo (probe, not judged)"
+	// zero-length reads (len(buf) = 0) interleaved: z(i mod n) of them before the i-th non-empty Read, so that an
+	// empty-buffer Read comes before the replay starts, between its bytes, at its end and after it
+	zeroPols := []memconn.Policy{memconn.Fixed(1).WithZeros(1), memconn.Fixed(2).WithZeros(0, 2), memconn.Fixed(5).WithZeros(1)}
+	if thorough {
+		zeroPols = append(zeroPols, memconn.Fixed(2).WithZeros(1), memconn.Fixed(3).WithZeros(2), memconn.Fixed(4).WithZeros(0, 1), memconn.Rel(0).WithZeros(3))
+	}
+	var zn []string
+	for _, p := range zeroPols {
+		zn = append(zn, p.Name)
+	}
+	r.Bounds["read_sizes_with_zero_length_reads(z(i mod n) empty-buffer Reads before the i-th non-empty Read)"] = zn
 	for _, L := range lengths {
 		payload := memconn.Pattern(0x5A3B1ED, L)
-		pols := memconn.Policies(append(append([]int{}, fixed...), L+1), []int{-1, 0, 1})
+		pols := append(memconn.Policies(append(append([]int{}, fixed...), L+1), []int{-1, 0, 1}), zeroPols...)
 		for _, sp := range memconn.Splits(L, []int{2, 3, 4}, 4096) {
 			for _, short := range shorts {
+				if !thorough && sp.Name == "thirds+0s" && short[0] > 1 {
+					continue // quick: the split with zero-length writes in between only with short reads {unlimited,1}
+				}
 				if !b.Mine(sp.Sizes, short) {
 					continue
 				}
